@@ -197,6 +197,23 @@ def run(ctx):
             v = peel(v)
             return isinstance(v, tuple) and v[0] == 'bin' and v[1] == 'BitOr' and any(isinstance(peel(x), tuple) and peel(x)[0] == 'entry' and Fn.path_of(peel(x)[1])[-1:] == [('f', fld)] and Fn.root_of(peel(x)[1]) == ('deref', ('param', 1)) for x in (v[2], v[3]))
         rep.check(r5, bool(ws) and all(accum(v) for v in ws), 'anchor-flag:' + fld, 'writes: %s (each must be `true` or `self.%s | ..`)' % ([short(v)[:50] for v in ws], fld), '%s:%d' % (ap.file, ap.line))
+    # the two virtual characters are distinct from each other and from every byte, and inside the alphabet
+    consts_ = {}
+    for fid_, g_ in F.fns.items():
+        if not fid_.startswith('smack::'):
+            continue
+        for b_ in g_.blocks:
+            for st_ in b_['stmts']:
+                for o_ in [st_['rv'].get('a'), st_['rv'].get('b')] + list(st_['rv'].get('ops', [])):
+                    if isinstance(o_, dict) and o_.get('k') == 'const' and str(o_.get('name', '')).startswith('smack::smack_constants::') and isinstance(o_.get('val'), int):
+                        consts_[o_['name'].split('::')[-1]] = o_['val']
+            t_ = b_['term']
+            for o_ in (t_.get('args', []) if t_['k'] == 'call' else []):
+                if isinstance(o_, dict) and o_.get('k') == 'const' and str(o_.get('name', '')).startswith('smack::smack_constants::') and isinstance(o_.get('val'), int):
+                    consts_[o_['name'].split('::')[-1]] = o_['val']
+    cs_, ce_, al_ = consts_.get('CHAR_ANCHOR_START'), consts_.get('CHAR_ANCHOR_END'), consts_.get('ALPHABET_SIZE')
+    rep.check(r5, None not in (cs_, ce_, al_) and cs_ != ce_ and 256 <= cs_ < al_ and 256 <= ce_ < al_, 'anchor-chars-distinct',
+              'CHAR_ANCHOR_START = %s, CHAR_ANCHOR_END = %s, ALPHABET_SIZE = %s (required: distinct, >= 256, < ALPHABET_SIZE)' % (cs_, ce_, al_))
     # the final table gets one entry per (state row, character): no iteration of the fill loops skips the store, and what is stored is goto(row, c)
     s4 = F.fn(S_ + 'stage4_make_final_table')
     rep.saw(s4)
